@@ -50,7 +50,10 @@ def subchecks(tier):
                              classes=classes, n={"quick": 3600, "thorough": 20000},
                              rule="reneging customers that jockey to nodes with 're-route' pre-emption: one event can move a customer out of a node, pre-empt somebody at "
                                   "its new node and send that one back; same conservation monitor")
-    return [base, region, jockey, reused_subcheck(), fuzz_subcheck(base, tier)]
+    long_run = system_subcheck("long_run", common.full_profile("C01", plans=("max_time",), horizon=(300.0, 600.0), budget=6000, resumptions=(1, 2), load="heavy"),
+                               lambda spec: [Conservation()], lambda a, spec, res: a.get("events", 0) >= 2500, classes=classes, n={"quick": 64, "thorough": 600},
+                               rule="the lattice run over thousands of events (customer ids, server ids and counters in the thousands); same monitor")
+    return [base, region, jockey, long_run, reused_subcheck(), fuzz_subcheck(base, tier)]
 
 
 def reused_subcheck():
